@@ -29,7 +29,8 @@ const INTERLOPERS: [&str; 6] = [
 
 pub fn cfg() -> ObsCfg {
     // plain evaluation: no probes, no shadow heap — the state under test is the interpreter's own
-    ObsCfg::plain(400_000)
+    // (interpreted or under ThreadSanitizer: a smaller budget; the contexts compared there all run in that flavour)
+    ObsCfg::plain(if matches!(Flavour::from_env(), Flavour::Miri) { 20_000 } else { 400_000 })
 }
 
 /// Programs that sit just below, at and just above the interpreter's own limits (nesting depth of the front end,
